@@ -330,19 +330,118 @@ def entries_check(lib_raw=None):
 
 
 
+MUT_TYPES = r'Mutex|RwLock|Atomic\w+|RefCell|\bCell\b|UnsafeCell|Condvar'
+ONCE_TYPES = r'OnceCell|OnceLock|LazyLock|\bLazy\b|\bOnce\b'
+_KW_NOT_VARS = ('move', 'as', 'if', 'else', 'match', 'let', 'mut', 'ref', 'true', 'false', 'self', 'in', 'for', 'while', 'loop', 'return', 'unsafe', 'crate', 'super', 'dyn',
+                'impl', 'where', 'fn', 'u8', 'u16', 'u32', 'u64', 'usize', 'i32', 'i64', 'isize', 'str', 'bool', 'char', 'f64', 'f32', '_')
+
+
+def thread_local_spans(src):
+    spans = []
+    for m in re.finditer(r'thread_local!\s*[\(\{]', src):
+        o = m.end() - 1
+        d, j = 0, o
+        close = {'(': ')', '{': '}'}[src[o]]
+        while j < len(src):
+            if src[j] == src[o]:
+                d += 1
+            elif src[j] == close:
+                d -= 1
+                if d == 0:
+                    break
+            j += 1
+        spans.append((o, j))
+    return spans
+
+
+def classify_statics(src):
+    """every `static` of a source text (strings blanked, comments removed) outside thread_local!:
+    -> list of (verdict, name, type, match, detail); verdict in
+       'mut'      static mut / interior mutability: state every call (and thread) reads and writes
+       'once-dep' initialised once with data of the call that happens to come first
+       'once-const' initialised once with a constant: not state
+       'once-unknown' no initialiser found
+       'data'     immutable data of primitive / &str / array type: not state
+       'opaque'   immutable static of a type whose interior is not known here"""
+    out = []
+    tl = thread_local_spans(src)
+    for m in re.finditer(r"(?<![\w'&])static\s+(mut\s+)?(\w+)\s*:\s*([^=;]+)", src):
+        if any(a <= m.start() < b for a, b in tl):
+            continue
+        name, ty = m.group(2), m.group(3).strip()
+        if m.group(1):
+            out.append(('mut', name, ty, m, '`static mut`'))
+        elif re.search(MUT_TYPES, ty):
+            out.append(('mut', name, ty, m, 'interior mutability'))
+        elif re.search(ONCE_TYPES, ty):
+            inits = []
+            for u in re.finditer(r'\b%s\s*\.\s*(get_or_init|get_or_try_init|get_mut_or_init|set|call_once)\s*\(' % re.escape(name), src):
+                d, j = 0, u.end() - 1
+                while j < len(src):
+                    if src[j] in '([{':
+                        d += 1
+                    elif src[j] in ')]}':
+                        d -= 1
+                        if d == 0:
+                            break
+                    j += 1
+                inits.append((u, src[u.end():j]))
+            dep = None
+            for u, e_ in inits:
+                bound = set(re.findall(r'\b([a-z_]\w*)\b', ' '.join(re.findall(r'\|([^|]*)\|', e_))))
+                for lm in re.finditer(r'\b(?:let|for)\s+((?:mut\s+)?[^=;{]*?)(?:=|\bin\b)', e_):
+                    bound |= set(re.findall(r'\b([a-z_]\w*)\b', lm.group(1)))
+                for lm in re.finditer(r'\(([^()]*)\)\s*=>', e_):
+                    bound |= set(re.findall(r'\b([a-z_]\w*)\b', lm.group(1)))
+                for v in re.finditer(r'(?<![\w.:])([a-z_]\w*)\b(?!\s*(?:\(|::|!))', e_):
+                    w = v.group(1)
+                    if w in bound or w in _KW_NOT_VARS:
+                        continue
+                    dep = (u, w)
+                    break
+                if dep:
+                    break
+            if dep:
+                out.append(('once-dep', name, ty, dep[0], dep[1]))
+            elif inits or re.search(r'=\s*(?:\w+::)*(?:LazyLock|Lazy)\s*::\s*new', src[m.end():m.end() + 80]):
+                out.append(('once-const', name, ty, m, ''))
+            else:
+                out.append(('once-unknown', name, ty, m, ''))
+        elif re.match(r"^(?:&|'static|\s|\[|\]|;|,|\(|\)|\d+|[A-Z_][A-Z0-9_]*|u8|u16|u32|u64|u128|usize|i8|i16|i32|i64|i128|isize|bool|char|str|f32|f64)*$", ty):
+            out.append(('data', name, ty, m, ''))
+        else:
+            out.append(('opaque', name, ty, m, ''))
+    return out
+
+
 def stateless_check():
-    """frame condition of everything outside the parser crate: no static, thread_local, lazy or atomic state, so a
-    preprocess/parse wrapper can read nothing but its arguments and the files it opens"""
+    """frame condition of everything outside the parser crate: no state that outlives a call - no thread_local, no `static mut`,
+    no static with interior mutability, no once-initialised static filled with data of a call - so a preprocess/parse wrapper can read
+    nothing but its arguments and the files it opens.  Immutable data and constant-initialised once-cells are not state."""
     failures = []
+    undecided = []
     checked = 0
     for crate in ('sv-parser-pp', 'sv-parser', 'sv-parser-syntaxtree', 'sv-parser-error', 'sv-parser-macros'):
         for rel, raw in crate_text(crate):
             src = front.blank_strings(raw)
+            src = re.sub(r'//[^\n]*', lambda m: ' ' * len(m.group(0)), src)
             checked += 1
-            for pat in (r'thread_local!', r'lazy_static!', r'\bOnceCell\b', r'\bOnceLock\b', r'\bAtomic\w+\b', r'\bLazyLock\b', r'(?<![\w\'])static\s+mut\b', r'(?<![\w\'&])static\s+\w+\s*:\s*(?!&\s*(?:\'static\s+)?str)'):
-                for m in re.finditer(pat, src):
-                    failures.append(fail('-', 'C07.state-outside-parser-crate', 'global state in %s through %s' % (crate, pat), ['C07', 'C19', 'C20'], Dummy(rel, raw.count('\n', 0, m.start()) + 1)))
-    return dict(failures=failures, checked=checked)
+            def at(m):
+                return Dummy(rel, raw.count('\n', 0, m.start()) + 1)
+            for m in re.finditer(r'thread_local!', src):
+                failures.append(fail('-', 'C07.state-outside-parser-crate', 'per-thread state in %s (thread_local!) that no entry point resets' % crate, ['C07', 'C20'], at(m)))
+            for m in re.finditer(r'lazy_static!', src):
+                seg = src[m.end():m.end() + 600]
+                if re.search(MUT_TYPES, seg):
+                    failures.append(fail('-', 'C07.state-outside-parser-crate', 'lazy_static! holding mutable state in %s' % crate, ['C07', 'C19', 'C20'], at(m)))
+                else:
+                    undecided.append('%s: lazy_static!: lazily initialised global' % rel)
+            for verdict, name, ty, m, detail in classify_statics(src):
+                if verdict in ('mut', 'once-dep'):
+                    failures.append(fail('-', 'C07.state-outside-parser-crate', 'global state in %s: static %s: %s (%s)' % (crate, name, ty[:40], detail), ['C07', 'C19', 'C20'], at(m)))
+                elif verdict in ('once-unknown', 'opaque'):
+                    undecided.append('%s: static %s: %s - whether it holds state is not decided' % (rel, name, ty[:40]))
+    return dict(failures=failures, checked=checked, undecided=undecided)
 
 
 def shared_check():
@@ -363,62 +462,16 @@ def shared_check():
             checked += 1
             def at(m):
                 return Dummy(rel, raw.count('\n', 0, m.start()) + 1)
-            # spans of thread_local! invocations
-            tl_spans = []
-            for m in re.finditer(r'thread_local!\s*[\(\{]', src):
-                o = m.end() - 1
-                d, j = 0, o
-                close = {'(': ')', '{': '}'}[src[o]]
-                while j < len(src):
-                    if src[j] == src[o]:
-                        d += 1
-                    elif src[j] == close:
-                        d -= 1
-                        if d == 0:
-                            break
-                    j += 1
-                tl_spans.append((o, j))
-            for m in re.finditer(r"(?<![\w'&])static\s+(mut\s+)?(\w+)\s*:\s*([^=;]+)", src):
-                if any(a <= m.start() < b for a, b in tl_spans):
-                    continue
-                name, ty = m.group(2), m.group(3)
+            for verdict, name, ty, m, detail in classify_statics(src):
                 checked += 1
-                if m.group(1):
+                if verdict == 'mut' and detail == '`static mut`':
                     failures.append(fail('-', 'C19.shared-state.static-mut.%s' % name, '`static mut %s`: state every thread reads and writes' % name, ['C19', 'C07'], at(m)))
-                elif re.search(MUT, ty):
-                    failures.append(fail('-', 'C19.shared-state.static.%s' % name, 'static %s: %s is mutable state shared by all threads' % (name, ty.strip()[:60]), ['C19', 'C07'], at(m)))
-                elif re.search(ONCE, ty):
-                    # initialised once, then read by every thread: harmless iff what it is initialised WITH does not depend on
-                    # the call that happens to come first.  Every initialiser (`NAME.get_or_init(|| E)`, `NAME.set(E)`) is looked
-                    # at: a free lower-case identifier of E that is neither called, nor a path segment, nor a field/method, nor
-                    # bound by a closure inside E is a local or a parameter of the surrounding function - data of ONE call
-                    inits = []
-                    for u in re.finditer(r'\b%s\s*\.\s*(get_or_init|get_or_try_init|get_mut_or_init|set|call_once)\s*\(' % re.escape(name), src):
-                        d, j = 0, u.end() - 1
-                        while j < len(src):
-                            if src[j] in '([{':
-                                d += 1
-                            elif src[j] in ')]}':
-                                d -= 1
-                                if d == 0:
-                                    break
-                            j += 1
-                        inits.append((u, src[u.end():j]))
-                    dep = None
-                    for u, e_ in inits:
-                        bound = set(re.findall(r'\b([a-z_]\w*)\b', ' '.join(re.findall(r'\|([^|]*)\|', e_))))
-                        for v in re.finditer(r'(?<![\w.:])([a-z_]\w*)\b(?!\s*(?:\(|::|!))', e_):
-                            w = v.group(1)
-                            if w in bound or w in ('move', 'as', 'if', 'else', 'match', 'let', 'mut', 'ref', 'true', 'false', 'self', 'in', 'for', 'while', 'loop', 'return', 'unsafe', 'crate', 'super', 'dyn', 'impl', 'where', 'fn', 'u8', 'u16', 'u32', 'u64', 'usize', 'i32', 'i64', 'isize', 'str', 'bool', 'char', 'f64', 'f32', '_'):
-                                continue
-                            dep = (u, w)
-                            break
-                        if dep:
-                            break
-                    if dep:
-                        failures.append(fail('-', 'C19.shared-state.once.%s' % name, 'static %s: %s is initialised by whichever call comes first with data of that call (`%s`) and then read by every thread' % (name, ty.strip()[:40], dep[1]), ['C19', 'C07'], at(dep[0])))
-                    elif not inits and not re.search(r'=\s*(?:\w+::)*(?:LazyLock|Lazy)\s*::\s*new', src[m.end():m.end() + 80]):
-                        undecided.append('%s: static %s: %s is initialised once and shared by all threads; no initialiser was found, so whether results can depend on who initialises it is not decided' % (rel, name, ty.strip()[:60]))
+                elif verdict == 'mut':
+                    failures.append(fail('-', 'C19.shared-state.static.%s' % name, 'static %s: %s is mutable state shared by all threads' % (name, ty[:60]), ['C19', 'C07'], at(m)))
+                elif verdict == 'once-dep':
+                    failures.append(fail('-', 'C19.shared-state.once.%s' % name, 'static %s: %s is initialised by whichever call comes first with data of that call (`%s`) and then read by every thread' % (name, ty[:40], detail), ['C19', 'C07'], at(m)))
+                elif verdict == 'once-unknown':
+                    undecided.append('%s: static %s: %s is initialised once and shared by all threads; no initialiser was found, so whether results can depend on who initialises it is not decided' % (rel, name, ty[:60]))
             for m in re.finditer(r'lazy_static!', src):
                 checked += 1
                 seg = src[m.end():m.end() + 600]
@@ -538,15 +591,19 @@ def effects_run(fns, table, comb):
         src = front.blank_strings(raw)
         for m in re.finditer(r'thread_local!\s*\(\s*static\s+(\w+)', src):
             tls[m.group(1)] = Dummy(rel, raw.count('\n', 0, m.start()) + 1)
-        for m in re.finditer(r'(?<![\w!(])\bstatic\s+(?:mut\s+)?(\w+)\s*:', src):
-            if m.group(1) not in tls:
-                # inside thread_local!( ... ) it was matched above
-                pre = src[max(0, m.start() - 40):m.start()]
-                if 'thread_local!' not in pre:
-                    failures.append(fail('-', 'C07.static.%s' % m.group(1), 'a static outside thread_local!', ['C07', 'C19'], Dummy(rel, raw.count('\n', 0, m.start()) + 1)))
-        for pat in (r'lazy_static!', r'\bOnceCell\b', r'\bOnceLock\b', r'\bAtomic\w+\b', r'\bLazyLock\b', r'\bLazy<'):
-            for m in re.finditer(pat, src):
-                failures.append(fail('-', 'C07.hidden-static', 'global state through %s' % pat, ['C07', 'C19'], Dummy(rel, raw.count('\n', 0, m.start()) + 1)))
+        src_nc = re.sub(r'//[^\n]*', lambda m: ' ' * len(m.group(0)), src)
+        for verdict, name, ty, m, detail in classify_statics(src_nc):
+            # a static outside thread_local!: state only if it can change or is filled with data of a call
+            if verdict in ('mut', 'once-dep'):
+                failures.append(fail('-', 'C07.static.%s' % name, 'a static outside thread_local! that holds state: %s (%s)' % (ty[:40], detail), ['C07', 'C19'], Dummy(rel, raw.count('\n', 0, m.start()) + 1)))
+            elif verdict in ('once-unknown', 'opaque'):
+                undecided_e.append('%s: static %s: %s - whether it holds state is not decided' % (rel, name, ty[:40]))
+        for m in re.finditer(r'lazy_static!', src_nc):
+            seg = src_nc[m.end():m.end() + 600]
+            if re.search(MUT_TYPES, seg):
+                failures.append(fail('-', 'C07.hidden-static', 'lazy_static! holding mutable state', ['C07', 'C19'], Dummy(rel, raw.count('\n', 0, m.start()) + 1)))
+            else:
+                undecided_e.append('%s: lazy_static!: lazily initialised global' % rel)
     checked += 1
     if set(tls) != EXPECTED_TLS:
         for n in set(tls) - EXPECTED_TLS:
